@@ -53,7 +53,7 @@ _RE_SIMSTAT = re.compile(r"The number of states generated: (\d+)")
 
 def _java_opts(extra_lib=None, dfs=False, heap=None):
     libs = [SPEC] + (extra_lib or [])
-    opts = ["-DTLA-Library=" + os.pathsep.join(libs)]
+    opts = ["-DTLA-Library=" + os.pathsep.join(libs), "-XX:ParallelGCThreads=4"]
     if dfs:
         opts.append("-Dtlc2.tool.queue.IStateQueue=StateDeque")
     if heap:
